@@ -728,7 +728,7 @@ def _write(path, txt):
 def write(repo=None, outdir=None):
     """returns {'AlmGen.v': status, 'StatsAcc.v': status, 'detail': {...}, 'kernels': {name: gallina}, 'acc': {...}}"""
     repo = repo or os.environ.get("VERIF_REPO", "/repo")
-    outdir = outdir or os.path.join(VERIF, "coq", "gen")
+    outdir = outdir or (os.environ.get("VERIF_GEN_OUT") or os.path.join(VERIF, "coq", "gen"))
     res = {"detail": {}}
     # the two source files are translated independently: a region that left the grammar falls back to ITS reference kernels only
     HELPER_KERNELS = ("g_upw_skip", "g_upw_single", "g_single_cond", "g_single_new", "g_comp_cond", "g_comp_new",
